@@ -308,7 +308,7 @@ Proof.
   - exfalso. apply Hn. cbn [fp]. apply holds_true in E3. rewrite E3. simpl. tauto.
   - exfalso. apply Hn. simpl. tauto.
   - exfalso. apply Hn. cbn [fp]. unfold idle_head. rewrite E5.
-    apply cs_submit_spec in E9. destruct E9 as [_ E9]. inversion E9; subst.
+    apply cs_submit_g_spec in E9. destruct E9 as [_ E9]. apply cs_submit_spec in E9. destruct E9 as [_ E9]. inversion E9; subst.
     match goal with X : pidle p = _ |- _ => rewrite X end. simpl. tauto.
 Qed.
 
